@@ -150,6 +150,7 @@ type ValueOpts struct {
 	DynTypes TypeOpts   // types used inside dynamic values
 	NoRaw    bool       // never generate raw dynamic values
 	DynLeaf  []ref.Kind // leaf kinds of dynamic values (defaults to constructors)
+	LongRaw  bool       // now and then a raw buffer of several thousand bytes (around 4096 and 8192)
 }
 
 // DefaultValueOpts is a small configuration.
@@ -238,6 +239,15 @@ func drawValue(t *rapid.T, ty *ref.Type, o ValueOpts, dyn int) interface{} {
 	case ref.KString:
 		return Str(o.MaxLen*3).Draw(t, "s")
 	case ref.KRaw:
+		if o.LongRaw && rapid.IntRange(0, 9).Draw(t, "longraw") == 0 {
+			n := rapid.SampledFrom([]int{4095, 4096, 4097, 5000, 8191, 8193, 10000}).Draw(t, "rawlen")
+			b := make([]byte, n)
+			seed := rapid.Byte().Draw(t, "rawfill")
+			for i := range b {
+				b[i] = seed + byte(i*13)
+			}
+			return b
+		}
 		return rapid.SliceOfN(rapid.Byte(), 0, o.MaxLen*4).Draw(t, "r")
 	case ref.KVoid:
 		return nil
